@@ -53,7 +53,7 @@ def digest(walk, spec_out_iter=None):
             pk, pkv = parse_kv(pkt)
             if not res.startswith("rejected"):
                 d["ops"][note["index"]] = {"kind": note["op"], "step": i, "t": t, "packet": pkt, "qos": int(kv_get(pkv, "qos", "0")),
-                                           "timeout": int(kv_get(kv, "timeout")) if kv_get(kv, "timeout") else None,
+                                           "timeout": int(kv_get(kv, "timeout")) if kv_get(kv, "timeout") not in (None, "", "max") else None,
                                            "n": sum(1 for k, _ in pkv if k in ("sub", "tf")), "connected_at_submit": None,
                                            "retain": kv_get(pkv, "retain", "0") == "1"}
         if res.startswith("err") and cur is not None and cur.close_step is None and cur.error_step is None \
@@ -149,6 +149,21 @@ def mon_C11(walk, d):
                     out.append(("bytes-after-error", "service emitted bytes after an entry point failed", i))
                 if k in ("svc", "data", "wc") and f.get("res") == "ok":
                     out.append(("ok-after-error", f"{k} succeeded on a halted engine", i))
+    # a server packet that is illegal at this point of a handshake is refused (connection error), not acted upon
+    for i, (o, note) in enumerate(zip(walk.out, walk.notes)):
+        if note.get("kind") == "data" and note.get("must_refuse"):
+            f, _ = resp_fields(o)
+            c = conn_at(d, i)
+            if f.get("res") == "ok" and c is not None and (c.error_step is None or c.error_step >= i):
+                out.append(("violation-accepted", f"{note.get('label')}: a PUBCOMP / failing PUBREC for packet id {note['ack']['pid']} arrived before the "
+                                                  f"client had sent its PUBREL and was accepted", i))
+    # the engine never fails an entry point with an internal error while the driver and the server follow their contracts
+    if True:
+        for i, (o, note) in enumerate(zip(walk.out, walk.notes)):
+            if note.get("kind") in ("svc", "wc", "data", "user") and resp_fields(o)[0].get("res") == "err:InternalStateError":
+                c = conn_at(d, i)
+                if c is not None and (c.error_step is None or c.error_step >= i) and not note.get("after_error"):
+                    out.append(("internal-error", f"{note.get('kind')} failed with InternalStateError on a healthy connection", i))
     # a well-formed packet from the reference broker is never undecodable, whatever happened on earlier connections
     # (judged in adversarial walks too: on a connection that has not been tainted yet)
     client_mps = int(kv_get(walk.connect_kv, "mps", "0") or 0)
@@ -924,6 +939,9 @@ def mon_C18(walk, d):
         op = d["ops"][idx]
         step, t, outcome = lst[0]
         if outcome == "err.AckTimeout":
+            if op["kind"] == "pub" and op["qos"] == 0:
+                out.append(("timeout-on-qos0", f"QoS 0 publish {idx} (not an acknowledged operation) failed with AckTimeout", step))
+                continue
             if op["timeout"] is None:
                 out.append(("timeout-without-timeout", f"operation {idx} has no ack timeout but failed with AckTimeout", step))
                 continue
